@@ -1,14 +1,6 @@
-HOOK_COMMITS = []
+"""Manifest texts live next to the per-property configuration (bin/props.d/<id>.json)."""
+from props import TEXTS  # noqa: F401
+
+# commits in /repo that add verification hooks (build tag verif, add-only)
+HOOK_COMMITS = ["695f40a", "5cb0ad0", "4dffa46", "41224e4", "bb046e1"]
 NOT_APPLICABLE = {}
-TEXTS = {
- "C15": {
-  "technique": "Lean 4 theorems over operator cells regenerated from numeric.go/objects.go by a Go-to-Lean translator; hand model of array/map recursion tied by exhaustive pool^2 x operators correspondence",
-  "level": "Machine-checked proof: equal_comm (symmetry of == on all nested well-formed values), neq_not_eq, binop_no_panic (no operator application reaches a Go panic), trichotomy, le_iff_lt_or_eq, lt_flip are Lean theorems quantified over all values and all float arithmetic instances, stated about definitions that goextract regenerates from the Go source on every run; a source edit changes the Lean term and the proof is re-checked.",
-  "note": "Trusted: Lean kernel; goextract translator (fail-closed subset); hand model Model/Ops.lean for Array/Map recursion and left-operand dispatch, tied by the `ops` stream (pool^2 x 15 operators exhaustive + random nested values, model vs Object.BinaryOp/Equal and vs the VM); float arithmetic abstract (FloatOps), IEEE comparison defined on bit patterns. SyncMap/RuntimeError/user types outside the modelled value set.",
- },
- "C06": {
-  "technique": "Lean 4 theorems (Hoare triples, mvcgen, opcode by opcode) over a hand-written statement-order model of vm.go in a state+exception monad whose panic exits keep the partial state; model tied to the real VM by two lock-step correspondence streams (trace hook per instruction) and a recover()-oracle on scripts built to fail",
-  "level": "Machine-checked proof over the VM model, for ALL states satisfying the invariant, ARBITRARY bytecode, all fuel/globals/arguments: step_VInv (every opcode, every panic site preserves the recovery-path invariant VInv: handler frames have functions, handler sp >= 0, array sizes), loop_VInv, throw_fuel_adequate, recovery_total (handlePanic/throw/handleThrownError raise nothing from a VInv state), delivered_or_returned, Run_no_panic (with SetRecover(true) Run never ends in goPanic), reusable (the state after Run satisfies VInv again). Full statements, no partial theorems.",
-  "note": "Trusted: Lean kernel; the hand model (lean/UgoVerif/VM) and its tie: streams `vmtrace` (random programs) and `vmfail` (scripts built to fail: zero division, negative shifts, bad indexes/slices, non-callables, wrong argument counts, frame-limit and value-stack exhaustion at the exact boundaries, failures inside catch/finally/callees, panicking Go callbacks) compare outcome, instruction count, trace hash and globals in lock-step, plus the oracle: no panic escapes Run under recover(), the same VM re-runs identically and then runs a known script correctly. Host callbacks/most builtins are outside the model (oracle only); Go fatal errors are outside Run.",
- },
-}
